@@ -68,6 +68,39 @@ Definition bad_name (p : param) : Prop := ~ In (p_name p) allowed_args.
 Definition sig_faulty (ps : list param) : Prop :=
   first_not_self ps \/ Exists bad_kind ps \/ Exists bad_name ps.
 
-(* [k] is bound to a state by the class body (its last binding) *)
-Definition binds_state (b : list (string * smember)) (k : string) (d : decl) : Prop :=
-  lookup_last k b = Some (SState d).
+(* Name lookup in a class body.  [rb] is the part of the body that has been
+   executed, NEAREST LINE FIRST (the body read backwards): the name [k] denotes
+   what the nearest preceding binding of [k] gave it; a binding  k = k'  gave it
+   what k' denoted just before that line,  k = C_c.__dict__[k']  what that
+   class holds.  None: the name is not bound (or its decorator raised). *)
+Fixpoint denotes (reserved : list string) (dicts : list (dict member))
+  (rb : list (string * smember)) (k : string) : option member :=
+  match rb with
+  | [] => None
+  | (k', m) :: r =>
+    if String.eqb k' k then
+      match m with
+      | SOther => Some MOther
+      | SState d => match construct reserved d with Ok s => Some (MState s) | Err _ => None end
+      | SRef c k2 => class_attr dicts c k2
+      | SLocal k2 => denotes reserved dicts r k2
+      end
+    else denotes reserved dicts r k
+  end.
+
+(* the class body finally leaves the state object [s] bound under [k] --
+   created by a decorator in this body, or an object that already exists
+   (bound before in this body or in an earlier class) *)
+Definition binds_state (reserved : list string) (dicts : list (dict member))
+  (b : list (string * smember)) (k : string) (s : sdata) : Prop :=
+  denotes reserved dicts (rev b) k = Some (MState s).
+
+(* a line of a class body can be executed; [before] are the lines above it *)
+Definition entry_ok (reserved : list string) (dicts : list (dict member))
+  (before : list (string * smember)) (m : smember) : Prop :=
+  match m with
+  | SState d => ~ In (d_fname d) reserved /\ ~ sig_faulty (d_params d)
+  | SOther => True
+  | SLocal k => denotes reserved dicts (rev before) k <> None
+  | SRef c k => class_attr dicts c k <> None
+  end.
